@@ -330,7 +330,7 @@ _LEX = [
     "\t", " ", "\n", "\r\n", "٠", "١٢", "é", "。", "\ud800" if False else "�", "\x00", "\x7f",
     "alpn=h2", 'alpn="h2,h3"', "port=443", "port=65536", "key65535=a", "key65536", "mandatory=alpn", "no-default-alpn", "ipv4hint=1.2.3.4", "=x", "ech=!!!",
     "1-10", "1-10/2", "10-1", "1-", "-1-2", "1-10/0", "${0,3,d}", "${-1,0,x}", "${0,0,q}", "$", "${", "$$",
-    "1" * 4400, "9" * 5000 + "h", "20200101000000", "2020010100000", "0 0 0.000 N", "90 0 0 S 180 0 0 W 0m", "AQID", "====", "00-11-22-33-44-55", "gg",
+    "1" * 4400, "9" * 5000 + "h", "FLAG0", "FLAG3", "FLAG15", "FLAG16", "FLAG20", "FLAG64", "FLAG", "FLAG-1", "20200101000000", "2020010100000", "0 0 0.000 N", "90 0 0 S 180 0 0 W 0m", "AQID", "====", "00-11-22-33-44-55", "gg",
 ]
 
 
